@@ -24,6 +24,7 @@ def run(prog, chk):
         "collapse_varscalar only collapses when all values agree; get_userspace_location maps design to user space and keys by axis tag (R10.5)",
         "_featuresCompatible: all masters' feature text equals the default's, or only the default has any (R10.6)",
     ]
+    chk.decided += ["for a designspace the kerning groups are collected from every source's font, not from one master (a class pair of a master whose group the others lack keeps its value) (R10.7)"]
     chk.not_decided += ["gvar / HVAR / GPOS variation data computed by fontTools.varLib and feaLib", "numeric reproduction of the masters"]
     chk.guard(r101, prog, chk)
     chk.guard(r102, prog, chk)
@@ -31,6 +32,7 @@ def run(prog, chk):
     chk.guard(r104, prog, chk)
     chk.guard(r105, prog, chk)
     chk.guard(r106, prog, chk)
+    chk.guard(r107, prog, chk)
 
 
 def _source_loops(prog, f: FuncInfo) -> List[ast.For]:
@@ -338,7 +340,64 @@ def r106(prog, chk):
     chk.minimum("R10.6", 3)
 
 
+# ----------------------------------------------------------------------------- R10.7
+def r107(prog, chk):
+    """Variable kerning is recorded per source from that source's kerning dict (R10.1); a class pair only survives when its
+    group is known, so the groups must be collected from every source as well."""
+    from .common import atoms_of
+    ix = prog.ix
+
+    def is_ds(fs, truth):
+        op = "truthy" if truth else "falsy"
+        return any(o == op and ("DesignSpaceDocument" in l or l.endswith("isVariable")) for o, l, r in fs)
+
+    for f in (ix.get_method(f"{KERN1}.KernFeatureWriter", "getKerningGroups"), ix.get_func(f"{KERN2}:get_kerning_groups")):
+        loops = [n for n in A.body_nodes(f.node) if isinstance(n, ast.For) and isinstance(n.target, ast.Name)
+                 and any(isinstance(x, ast.Attribute) and x.attr == "groups" and isinstance(x.value, ast.Name) and x.value.id == n.target.id for x in ast.walk(n))]
+        need(len(loops) == 1, f"cannot interpret {f.short}: loop over the fonts whose groups are read")
+        lp = loops[0]
+        cands = []  # (expression, facts in force)
+
+        def expand(e, fs):
+            if isinstance(e, ast.IfExp):
+                expand(e.body, fs | set(atoms_of(e.test, True)))
+                expand(e.orelse, fs | set(atoms_of(e.test, False)))
+            else:
+                cands.append((e, fs))
+
+        if isinstance(lp.iter, ast.Name):
+            for d in prog.reaching(f, lp.iter.id, lp.iter):
+                need(d.kind == "assign" and d.value is not None, f"cannot interpret {f.short}: definition of `{lp.iter.id}`")
+                expand(d.value, set(facts(prog, f, d.binder)))
+        else:
+            expand(lp.iter, set(facts(prog, f, lp)))
+
+        def all_sources(e):
+            if not isinstance(e, (ast.ListComp, ast.GeneratorExp)) or len(e.generators) != 1:
+                return False
+            g = e.generators[0]
+            if not (isinstance(g.target, ast.Name) and isinstance(g.iter, ast.Attribute) and g.iter.attr == "sources" and T(g.iter.value).endswith("font")):
+                return False
+            if not (isinstance(e.elt, ast.Attribute) and e.elt.attr == "font" and isinstance(e.elt.value, ast.Name) and e.elt.value.id == g.target.id):
+                return False
+            # sparse layer sources share their parent's font object: leaving them out loses nothing
+            return all(T(c) == f"{g.target.id}.layerName is None" for c in g.ifs)
+
+        ds = [(e, fs) for e, fs in cands if not is_ds(fs, False)]  # what a designspace can reach
+        ok = bool(ds) and all(is_ds(fs, True) and all_sources(e) for e, fs in ds)
+        chk.ob("R10.7", f"{f.short}|for a designspace, groups are read from every source's font", ok, where(f, lp), detail="; ".join(T(e, 70) for e, fs in ds),
+               message=f"{f.short}: for a designspace the kerning groups are read from `{'; '.join(T(e, 60) for e, fs in ds)}`, not from every source: a class pair of a master "
+                       f"whose group the chosen font lacks is dropped and that master's kerning is not reproduced at its own location")
+    chk.minimum("R10.7", 2)
+
+
 MUTANTS = [
+    M("kerning groups read from the default source only (seeded C10h)", "ufo2ft/featureWriters/kernFeatureWriter.py", "KernFeatureWriter.getKerningGroups",
+      "fonts = [source.font for source in self.context.font.sources]", "fonts = [self.context.font.findDefault().font]", rule="R10.7"),
+    M("kern writer 2: groups of the first source only", "ufo2ft/featureWriters/kernFeatureWriter2.py", "get_kerning_groups",
+      "fonts = [source.font for source in context.font.sources]", "fonts = [source.font for source in context.font.sources[:1]]", rule="R10.7"),
+    M("groups: sparse layer sources left out (they share the parent's font)", "ufo2ft/featureWriters/kernFeatureWriter2.py", "get_kerning_groups",
+      "fonts = [source.font for source in context.font.sources]", "fonts = [source.font for source in context.font.sources if source.layerName is None]", kind="equiv"),
     M("pairs collected from the default source only", "ufo2ft/featureWriters/kernFeatureWriter.py", "KernFeatureWriter.getVariableKerningPairs",
       "all_pairs |= set(source.font.kerning)", "all_pairs |= set(designspace.findDefault().font.kerning)", rule="R10.1"),
     M("sources without any kerning skipped", "ufo2ft/featureWriters/kernFeatureWriter2.py", "get_variable_kerning_pairs",
